@@ -130,7 +130,7 @@ func main() {
 				fmt.Printf("%s: ENGINE ERROR: %s\n", k, r.Err)
 				bad++
 			}
-			d := &Discharger{Dir: *keep, Timeout: *timeout, Workers: 8}
+			d := &Discharger{Dir: *keep, Timeout: *timeout, Workers: 12}
 			d.Run(r.Obls)
 			for _, o := range r.Obls {
 				if o.Slow && *timeout < 60 {
